@@ -171,6 +171,14 @@ inductive Op (α : Type) where
   /-- `append(&mut other)`, `other` any `MutVector` (`Vec`, `InlineVec`, `ThinVec`) holding
       `other`; hands back what is left in `other`. -/
   | append (other : List α)
+  /-- InlineVec: `const_append(&mut other)`, `other` an `InlineVec<T, cap2, ..>` (any `cap2`)
+      holding `other`; hands back what is left in `other`. -/
+  | constAppend (cap2 : Nat) (other : List α)
+  /-- `spare_capacity_mut()`, write `vals` into its first `vals.length` slots, then
+      `unsafe { set_len(len + vals.length) }` — the idiomatic way to fill a vector in place.
+      ThinVec callers `reserve(vals.length)` first; InlineVec callers can only check that the
+      spare slice is long enough (the harness panics "new length exceeds capacity" otherwise). -/
+  | spareWrite (vals : List α)
   | splitOff (n : Nat)
   | drain (sb eb : Bnd) (script : List Side) (fin : DrainEnd)
   | tryDrain (sb eb : Bnd) (script : List Side) (fin : DrainEnd)
@@ -262,6 +270,17 @@ def append (s : IV α) (other : List α) : Outcome α × IV α :=
   if len + otherLen ≤ s.cap then (.ok (.items []), { s with xs := s.xs ++ other })
   else (.panic .capacity, s)
 
+/-- `const_append` (inline.rs:509): asserts `len + other_len <= CAP` — the capacity of `self`;
+    `CAP2`, the capacity of `other`, plays no role — then `append_raw` (copy to `data[len..]`,
+    `set_len(len + other_len)`) and `other.set_len(0)`.
+    Result: outcome (the value is what remains in `other`), `self`, and `other` afterwards — a
+    panic leaves both vectors untouched. -/
+def constAppend (s : IV α) (_cap2 : Nat) (other : List α) : Outcome α × IV α × List α :=
+  let len := s.xs.length
+  let otherLen := other.length
+  if len + otherLen ≤ s.cap then (.ok (.items []), { s with xs := s.xs ++ other }, [])
+  else (.panic .capacity, s, other)
+
 /-- `truncate` (inline.rs:568). -/
 def truncate (s : IV α) (n : Nat) : Outcome α × IV α :=
   let oldLen := s.xs.length
@@ -332,6 +351,11 @@ def extendFromSlice (s : IV α) (items : List α) : Outcome α × IV α :=
   let newLen := len + items.length
   if newLen ≤ s.cap then (.ok .unit, { s with xs := s.xs ++ items })
   else (.panic .capacity, s)
+
+/-- `spare_capacity_mut` (inline.rs:404: the `CAP - len` slots after the elements) filled with
+    `vals` by the caller, then `set_len(len + vals.length)` (inline.rs:386). The caller-side
+    check `vals.length <= spare.len()` is the capacity assert; nothing is written if it fails. -/
+def spareWrite (s : IV α) (vals : List α) : Outcome α × IV α := s.extendFromSlice vals
 
 /-- `extend_from_within` / `extend_from_within_copy` (inline.rs:975, :1171): `common::range`
     error → panic; then assert the new length; then clone `current[range]` into the spare
@@ -636,6 +660,11 @@ def extend (s : TV α) (hint : Nat) (items : List α) : Outcome α × TV α :=
 def extendFromSlice (s : TV α) (items : List α) : Outcome α × TV α :=
   s.afterReserve items.length fun s' => (.ok .unit, { s' with xs := s'.xs ++ items })
 
+/-- `reserve(vals.length)`, `spare_capacity_mut` (thin.rs:948: the `cap - len` slots after the
+    elements) filled with `vals`, `set_len(len + vals.length)` (thin.rs:601). When the values
+    already fit, `reserve` does nothing: no reallocation, capacity unchanged. -/
+def spareWrite (s : TV α) (vals : List α) : Outcome α × TV α := s.extendFromSlice vals
+
 /-- `shrink_to` (thin.rs:1184). -/
 def shrinkTo (s : TV α) (minCap : Nat) : Outcome α × TV α :=
   let len := s.xs.length
@@ -693,7 +722,7 @@ def Op.forIV : Op α → Bool
 /-- Operations `ThinVec` offers. -/
 def Op.forTV : Op α → Bool
   | .tryPush _ | .popIf _ | .tryInsert .. | .resizeWith .. | .extendFromArray _
-  | .extendFromWithinCopy .. | .intoIter _ | .clone => false
+  | .extendFromWithinCopy .. | .intoIter _ | .clone | .constAppend .. => false
   | _ => true
 
 /-- Outcome of an operation the vector kind does not have (never produced for a supported
@@ -720,6 +749,8 @@ def IV.step (s : IV α) : Op α → Outcome α × IV α
   | .extendFromWithinCopy sb eb => s.extendFromWithin sb eb
   | .extend _ items => s.extend items
   | .append other => s.append other
+  | .constAppend cap2 other => ((s.constAppend cap2 other).1, (s.constAppend cap2 other).2.1)
+  | .spareWrite vals => s.spareWrite vals
   | .splitOff n => s.splitOff n
   | .drain sb eb sc fin => s.drain sb eb sc fin
   | .intoIter sc => s.intoIter sc
@@ -743,6 +774,7 @@ def TV.step (s : TV α) : Op α → Outcome α × TV α
   | .tryExtendFromWithin sb eb => s.tryExtendFromWithin sb eb
   | .extend hint items => s.extend hint items
   | .append other => s.append other
+  | .spareWrite vals => s.spareWrite vals
   | .splitOff n => s.splitOff n
   | .drain sb eb sc fin => s.drain sb eb sc fin
   | .tryDrain sb eb sc fin => s.tryDrain sb eb sc fin
@@ -753,7 +785,7 @@ def TV.step (s : TV α) : Op α → Outcome α × TV α
   | .withCapacity n => s.replaceWithCapacity n
   | .from src hint items => s.from_ src hint items
   | .tryPush _ | .popIf _ | .tryInsert .. | .resizeWith .. | .extendFromArray _
-  | .extendFromWithinCopy .. | .intoIter _ | .clone => (unsupported, s)
+  | .extendFromWithinCopy .. | .intoIter _ | .clone | .constAppend .. => (unsupported, s)
 
 /-- A whole history: the outcomes in order and the final state. A panicking step leaves the
     state a `catch_unwind` caller sees and the history goes on. -/
